@@ -303,7 +303,7 @@ class C11(Check):
         rx, A, B, Cc = self.rx, self.A, self.B, self.Cc
         one = lambda ops, ports=3, bufs=1, tr=False: {"transparent": tr, "switches": [{"ports": ports, "bufs": bufs}], "links": [], "ops": ops}
         cases = []
-        # the decide-checked witness of Properties/C11.lean (known_dst_fresh_defect), replayed on the real system
+        # the decide-checked witness of Properties/C11.lean (known_dst_fresh_defect; a failing input on trees without repair C11-K1, /repo 73d2b4b has it)
         cases.append(one([rx(3, B, A), rx(1, A, B), rx(2, A, B), rx(1, A, B), rx(3, B, A, key=2)]))
         # the same staleness through the drop entry of step 5 (its match has no in_port)
         cases.append(one([rx(1, B, B), rx(2, B, B), rx(3, A, B, key=2)]))
